@@ -50,6 +50,18 @@ TB_COMMON = ["rustc/cargo as installed", "libsodium 1.0.18 built from the vendor
 
 PROPS = {}
 
+
+def _ASAN(monitor):
+    def fn(ctx):
+        return _asan(monitor)(ctx)
+    return fn
+
+
+def _MIRI(monitor):
+    def fn(ctx):
+        return _miri(monitor)(ctx)
+    return fn
+
 # ---------------------------------------------------------------------------------------------- C07
 
 
@@ -109,7 +121,7 @@ PROPS["C08"] = dict(
                "11 incremental interfaces, plus seeded random k-way partitions of messages up to 16 KiB; the split enumeration is exhaustive "
                "within its bounds, which reach every (buffer fill, piece class) state of the 16- and 128-byte block buffers; beyond the bounds it is sampling.",
     level_note="Message contents are one seeded random string per length; the one-shot value is additionally pinned to libsodium.",
-    runs=lambda tier: [dict(build="st", monitor="c08")],
+    runs=lambda tier: [dict(build="st", monitor="c08")] + ([dict(kind="custom", fn=_MIRI("c08"))] if tier == "thorough" else []),
     floors=_c08_floors,
     rule="a case is one (interface, message length, partition) triple; distinct = distinct (interface, length, first cut) enumeration cells / random draws; "
          "non-trivial = at least two pieces; quick: L2=400, L3=140 (signing 150/30); thorough: L2=1100, L3=300 (signing 400/70)",
@@ -348,7 +360,7 @@ PROPS["C04"] = dict(
                "base64 and unicode mutations. A panic, a fatal signal, an arithmetic-overflow panic (overflow-checked build) or a single allocation request above 64*len+1MiB is a violation. "
                "Run twice because an unchecked subtraction panics in one build and requests ~2^64 bytes in the other.",
     level_note="Password verification is only attempted when every m=/t= number in the string is within the bounded-cost cap (m<=1024 KiB, t<=3), as the property's 'bounded cost parameters' allows; parsing paths run on all strings.",
-    runs=lambda tier: [dict(build="st", monitor="c04"), dict(build="st-rel", monitor="c04")],
+    runs=lambda tier: [dict(build="st", monitor="c04"), dict(build="st-rel", monitor="c04")] + ([dict(kind="custom", fn=_MIRI("c04"))] if tier == "thorough" else []),
     floors=_c04_floors,
     rule="a case is (entry-point group, input bytes); distinct by (entry point, length, content class, repetition) / (tag byte, message length) / generated string index; "
          "non-trivial: all (every call reaches the function under test with caller-side buffers sized as documented)",
@@ -558,6 +570,106 @@ def _valgrind(monitor):
     return fn
 
 
+def _miri(monitor, nshards=16, timeout=2400):
+    """runs the monitor's reduced ('tiny') corpus under the Miri interpreter: undefined behaviour in the unsafe array casts,
+    packed-struct reinterpretation and slice arithmetic the workload reaches"""
+    def fn(ctx):
+        import json as _json
+        import re
+        import subprocess
+        from concurrent.futures import ThreadPoolExecutor
+        m = ctx["m"]
+        env = dict(ctx["env"])
+        env["CARGO_TARGET_DIR"] = os.path.join(ctx["cache"], "target-miri")
+        env["MIRIFLAGS"] = "-Zmiri-disable-isolation"
+        harness = os.path.join(ctx["root"], "harness")
+        base = ["cargo", "+nightly", "miri", "run", "--offline", "--no-default-features", "--features", "full", "--bin", "vmon", "--"]
+        # build once (and fail as inconclusive if the interpreter cannot be set up)
+        b = subprocess.run(base + ["noop"], cwd=harness, env=env, stdout=subprocess.PIPE, stderr=subprocess.PIPE, text=True, timeout=1800)
+        if "unknown monitor" not in b.stderr and b.returncode not in (2,):
+            m.problems.append("miri build/run failed: " + b.stderr[-600:].replace("\n", " | "))
+            return
+
+        def one(i):
+            cmd = base + [monitor, "--tier", "tiny", "--seed", str(ctx["seed"]), "--shard", str(i), "--nshards", str(nshards)]
+            try:
+                p = subprocess.run(cmd, cwd=harness, env=env, stdout=subprocess.PIPE, stderr=subprocess.PIPE, text=True, timeout=timeout, errors="replace")
+                return i, p.returncode, p.stdout, p.stderr
+            except subprocess.TimeoutExpired:
+                return i, "timeout", "", ""
+        with ThreadPoolExecutor(max_workers=nshards) as ex:
+            res = list(ex.map(one, range(nshards)))
+        logdir = os.path.join(ctx["cache"], "logs", ctx["pid"])
+        os.makedirs(logdir, exist_ok=True)
+        ub = 0
+        for i, rc, out, err in res:
+            lp = os.path.join(logdir, "miri-%s.%d.jsonl" % (monitor, i))
+            open(lp, "w").write(out)
+            if rc == "timeout":
+                m.problems.append("miri shard %d of %s hit the watchdog" % (i, monitor))
+                continue
+            if "Undefined Behavior" in err or "error: unsupported operation" in err and "dryoc" in err:
+                ub += 1
+                frames = re.findall(r"(/repo/src/[\w/]+\.rs:\d+)", err)
+                first = frames[0] if frames else "unknown"
+                kind = re.search(r"error: (Undefined Behavior[^\n]*)", err)
+                m.add_viol("%s|miri_undefined_behavior|%s" % (ctx["pid"], first.split(":")[0].replace("/repo/", "")), 1,
+                           {"report": err[-2500:], "first_repo_frame": first, "kind": kind.group(1) if kind else None},
+                           dict(seed=ctx["seed"], tier=ctx["tier"], monitor="miri:" + monitor, build="miri", shard=-1, nshards=nshards))
+                continue
+            ctx["merge_logs"](m, [(i, rc, lp, err)], monitor, "miri", ctx["tier"], ctx["seed"], nshards)
+        ctx["extra_cov"].setdefault("miri", {})[monitor] = dict(shards=nshards, undefined_behaviour_reports=ub, corpus="tier tiny of the same monitor, no libsodium (golden = dryoc one-shot / round-trip oracles only)")
+    return fn
+
+
+def _asan(monitor, corpus_tier="quick", nshards=16):
+    """the monitor's corpus in a build instrumented with AddressSanitizer (-Zsanitizer=address): heap errors inside the unsafe
+    page-aligned allocator and its FFI calls while the protected-memory workloads run"""
+    def fn(ctx):
+        import re
+        import subprocess
+        from concurrent.futures import ThreadPoolExecutor
+        m = ctx["m"]
+        env = dict(ctx["env"])
+        env["CARGO_TARGET_DIR"] = os.path.join(ctx["cache"], "target-asan")
+        env["RUSTFLAGS"] = "-Zsanitizer=address -Cforce-frame-pointers=yes"
+        harness = os.path.join(ctx["root"], "harness")
+        b = subprocess.run(["cargo", "+nightly", "build", "--offline", "--target", "x86_64-unknown-linux-gnu", "--profile", "verif", "--bin", "vmon", "--features", "nightly"],
+                           cwd=harness, env=env, stdout=subprocess.PIPE, stderr=subprocess.STDOUT, text=True)
+        if b.returncode != 0:
+            m.problems.append("ASan build failed: " + b.stdout[-600:].replace("\n", " | "))
+            return
+        binary = os.path.join(ctx["cache"], "target-asan", "x86_64-unknown-linux-gnu", "verif", "vmon")
+        logdir = os.path.join(ctx["cache"], "logs", ctx["pid"])
+        os.makedirs(logdir, exist_ok=True)
+        renv = dict(ctx["env"])
+        renv["ASAN_OPTIONS"] = "detect_leaks=0:halt_on_error=1:abort_on_error=0:symbolize=1"
+        renv["ASAN_SYMBOLIZER_PATH"] = "/usr/bin/llvm-symbolizer-14"
+
+        def one(i):
+            lp = os.path.join(logdir, "asan-%s.%d.jsonl" % (monitor, i))
+            cmd = [binary, monitor, "--tier", corpus_tier, "--seed", str(ctx["seed"]), "--shard", str(i), "--nshards", str(nshards), "--log", lp, "--opt", "no_fork=1"]
+            try:
+                p = subprocess.run(cmd, env=renv, stdout=subprocess.PIPE, stderr=subprocess.PIPE, text=True, timeout=3000, errors="replace")
+                return i, p.returncode, lp, p.stderr
+            except subprocess.TimeoutExpired:
+                return i, "timeout", lp, ""
+        with ThreadPoolExecutor(max_workers=nshards) as ex:
+            res = list(ex.map(one, range(nshards)))
+        reports = 0
+        for i, rc, lp, err in res:
+            if "ERROR: AddressSanitizer" in err:
+                reports += 1
+                kind = re.search(r"ERROR: AddressSanitizer: ([\w-]+)", err)
+                frame = re.search(r"(dryoc::[\w:<>]+)", err)
+                m.add_viol("%s|asan_report|%s|%s" % (ctx["pid"], kind.group(1) if kind else "unknown", frame.group(1) if frame else "unknown_frame"), 1,
+                           {"report": err[:3000]}, dict(seed=ctx["seed"], tier=ctx["tier"], monitor="asan:" + monitor, build="asan", shard=-1, nshards=nshards))
+                continue
+            ctx["merge_logs"](m, [(i, rc, lp, err)], monitor, "asan", ctx["tier"], ctx["seed"], nshards)
+        ctx["extra_cov"].setdefault("asan", {})[monitor] = dict(shards=nshards, reports=reports, corpus="tier %s of the same monitor, forked-child probes off" % corpus_tier)
+    return fn
+
+
 PROPS["C14"] = dict(
     level="exploration",
     technique="runtime invariant monitoring: operation sequences over the protected-memory type-state graph executed against the real allocator; after every step an executable model is compared with the kernel's view (/proc/self/maps page rights, smaps VM_LOCKED flags, VmLck, EFAULT byte probes, forked children that must SIGSEGV) and contents; valgrind memcheck over a reduced corpus",
@@ -566,7 +678,7 @@ PROPS["C14"] = dict(
                "data must have exactly the advertised rights, be locked iff the type says so, be fenced by guard pages, keep its contents, and after the last drop nothing stays locked or protected. "
                "Bounded-exhaustive within the depth, sampling beyond.",
     level_note="Linux only (mprotect/mlock paths); the kernel's /proc reporting is trusted after a start-up self-check against a region the harness maps, protects and locks itself. An Err from an operation the OS refuses is a result, not a violation.",
-    runs=lambda tier: [dict(build="ni", monitor="c14")] + ([dict(kind="custom", fn=_valgrind("c14"))]),
+    runs=lambda tier: [dict(build="ni", monitor="c14"), dict(kind="custom", fn=_valgrind("c14"))] + ([dict(kind="custom", fn=_asan("c14"))] if tier == "thorough" else []),
     floors=_c14_floors,
     rule="a case is one operation sequence (container, length, constructor, ops); distinct by enumeration index; sequences containing an operation the type system does not offer in the reached state are pruned "
          "at that point and not counted as distinct; evaluations = individual model-vs-kernel comparisons",
@@ -599,7 +711,7 @@ PROPS["C15"] = dict(
                "precomputed keys, locked signed messages, LockedPwHash, heap DryocBox) run with every container filled with a zero-free pattern; the hook inspects the whole released allocation including spare capacity. "
                "A history that never observes a release is inconclusive, not held.",
     level_note="The hook sits after all wiping the crate does and before free(); leaks (allocations never released) are outside the property and only counted.",
-    runs=lambda tier: [dict(build="ni", monitor="c15"), dict(kind="custom", fn=_valgrind("c15"))],
+    runs=lambda tier: [dict(build="ni", monitor="c15"), dict(kind="custom", fn=_valgrind("c15"))] + ([dict(kind="custom", fn=_asan("c15"))] if tier == "thorough" else []),
     floors=_c15_floors,
     rule="a case is one history (operation sequence or named container history); distinct by enumeration index / (length, variant); evaluations count histories plus individual release events inspected",
     assumptions=["wiping registers, stack copies or swap is outside the property"],
@@ -631,7 +743,7 @@ PROPS["C19"] = dict(
                "the cleanliness checks still run while unwinding.",
     level_note="The fault is injected by defining `mlock` in the monitor executable (it forwards to the real system call when not failing), which is equivalent to an LD_PRELOAD interposer but also works under valgrind; "
                "root ignores RLIMIT_MEMLOCK in this sandbox, so the limit itself cannot be used.",
-    runs=lambda tier: [dict(build="ni", monitor="c19")],
+    runs=lambda tier: [dict(build="ni", monitor="c19")] + ([dict(kind="custom", fn=_ASAN("c19"))] if tier == "thorough" else []),
     floors=_c19_floors,
     exhaustive=True,
     rule="a case is (operation sequence, fault position k); distinct by sequence index; the enumeration over k is exhaustive per sequence; evaluations = model-vs-kernel comparisons and outcome checks",
@@ -668,7 +780,7 @@ PROPS["C16"] = dict(
                "a bincode byte string (byte-string path), through serde's value deserializers and through TryFrom / from_slices, and must be rejected unless the count is exactly N. "
                "The count enumeration is exhaustive within 0..=2N; payloads and keys are sampled.",
     level_note="HeapByteArray<N> and LockedRO<...> only implement Serialize; their encodings are compared with the stack type's. Vec<u8> containers have no fixed length to enforce and are only round-tripped.",
-    runs=lambda tier: [dict(build="st", monitor="c16"), dict(build="ni", monitor="c16", opts=NI_ONLY)],
+    runs=lambda tier: [dict(build="st", monitor="c16"), dict(build="ni", monitor="c16", opts=NI_ONLY)] + ([dict(kind="custom", fn=_MIRI("c16"))] if tier == "thorough" else []),
     floors=_c16_floors,
     rule="a case is (object type, containers, payload length, encoding) or (fixed-length type, decoding path, element count); distinct by payload length / type; evaluations = individual comparisons",
     assumptions=[],
